@@ -89,6 +89,9 @@ func c03Specs() []built {
 		spec.Spec{Name: "url-no-schemes-via-nofollow", Base: "new", Calls: w(opt("RequireNoFollowOnLinks", true))},
 		spec.Spec{Name: "url-only-scheme-pattern", Base: "new", Calls: w(opt("RequireParseableURLs", true), C{Op: "AllowURLSchemesMatching", Re: `^(ftp|tel)$`})},
 		spec.Spec{Name: "url-unanchored-scheme-pattern", Base: "new", Calls: w(opt("RequireParseableURLs", true), C{Op: "AllowURLSchemesMatching", Re: `e\.x`})},
+		// a scheme pattern that also matches the empty string must not admit scheme-less (relative) references
+		spec.Spec{Name: "url-scheme-pattern-matches-empty", Base: "new", Calls: w(opt("RequireParseableURLs", true), C{Op: "AllowURLSchemes", Names: []string{"https"}}, C{Op: "AllowURLSchemesMatching", Re: `^(ftp|tel)?$`})},
+		spec.Spec{Name: "url-only-scheme-pattern-star", Base: "new", Calls: w(opt("RequireParseableURLs", true), C{Op: "AllowURLSchemesMatching", Re: `^[a-z]*$`}, opt("AllowRelativeURLs", false))},
 		spec.Spec{Name: "url-only-custom-scheme", Base: "new", Calls: w(opt("AllowRelativeURLs", true), C{Op: "AllowURLSchemeWithCustomPolicy", Names: []string{"http"}, Fn: "host-example.org"})})
 	// the shipped policy too (implies URL checking through AllowStandardURLs)
 	out = append(out, specByName("ugc"), specByName("cmd-email"))
